@@ -210,7 +210,7 @@ func retypingRule(c *Ctx, ruleIdent, ruleNonEmpty string) {
 				if !okE || !segsEqual([]Seg{{Elems: elems}}, []Seg{{Elems: want}}, r.st.sameVal) {
 					ok = false
 					why = fmt.Sprintf("listener receives %s, the wire message was %s", arrayStringIn(r.st, &ArrayV{Segs: []Seg{{Elems: elems}}}), arrayStringIn(r.st, &ArrayV{Segs: []Seg{{Elems: want}}}))
-				} else if msg.Obj <= firstFresh || len(msg.Path) > 0 {
+				} else if !ex.allocatedSince(firstFresh, msg.Obj) || len(msg.Path) > 0 {
 					// the receiver may keep the message: it must not share storage with the decoder's slice or with
 					// anything that outlives the call (a buffer captured by the closure is rewritten by the next message)
 					ok = false
